@@ -40,6 +40,8 @@ class Info(object):
                 self.ncomp = len(sp)
                 self.m = S.flat_size(sp[0])
                 self.wb = S.weights(sp[0])
+                # per-component weights of the product space (1 for an unweighted product)
+                self.wc = self.w.reshape(self.ncomp, self.m)[:, 0] / self.wb[0]
 
     def elem(self, a):
         return S.from_flat(self.space, a)
@@ -96,17 +98,27 @@ def ref_ind_ball(info, p, band=1e-9):
     return f
 
 
+def _wpnorm(info, g, p):
+    """Pointwise p-norm over the components with the product-space weights (PointwiseNorm)."""
+    wc = getattr(info, 'wc', None)
+    if wc is None or np.all(wc == 1) or p == INF:
+        return _pnorm(g, p, axis=0)
+    if p == 1:
+        return np.sum(wc[:, None] * np.abs(g), axis=0)
+    return np.sum(wc[:, None] * np.abs(g) ** p, axis=0) ** (1.0 / p)
+
+
 def ref_group_l1(info, p):
     def f(z):
         g = info.groups(z)
-        return float(np.sum(info.wb * _pnorm(g, p, axis=0)))
+        return float(np.sum(info.wb * _wpnorm(info, g, p)))
     return f
 
 
 def ref_ind_group_ball(info, p, band=1e-9):
     def f(z):
         g = info.groups(z)
-        v = float(np.max(_pnorm(g, p, axis=0)))
+        v = float(np.max(_wpnorm(info, g, p)))
         if abs(v - 1) <= band:
             return _band()
         return INF if v > 1 else 0.0
@@ -361,15 +373,21 @@ SPECS = [
     FSpec('L2NormSquared', TENS + ['pw_rn2_2', 'pr_rn2_rn2_w'], [{}],
           lambda sp, o: odl.solvers.L2NormSquared(sp),
           lambda i, o: (lambda z: i.norm2(z))),
-    FSpec('LpNorm', TENS, [{'p': 'inf'}, {'p': 1}, {'p': 2}, {'p': 1.5}, {'p': 3}],
+    FSpec('LpNorm', TENS + ['rn2x2'], [{'p': 'inf'}, {'p': 1}, {'p': 2}, {'p': 1.5}, {'p': 3}],
           lambda sp, o: odl.solvers.LpNorm(sp, float(o['p'])),
           lambda i, o: ref_lpnorm(i, float(o['p'])), dom=_nonzero, prox_tol=1e-6),
-    FSpec('IndicatorLpUnitBall', TENS, [{'p': 'inf'}, {'p': 2}, {'p': 1}, {'p': 3}],
+    FSpec('IndicatorLpUnitBall', TENS + ['rn2x2'], [{'p': 'inf'}, {'p': 2}, {'p': 1}, {'p': 3}],
           lambda sp, o: odl.solvers.IndicatorLpUnitBall(sp, float(o['p'])),
           lambda i, o: ref_ind_ball(i, float(o['p'])), V=V7, prox_tol=1e-6),
     FSpec('GroupL1Norm', POW, [{'p': 2}, {'p': 1}],
           lambda sp, o: odl.solvers.GroupL1Norm(sp, o['p']),
           lambda i, o: ref_group_l1(i, o['p']), dom=lambda i, o: _groupnonzero(o['p'])(i, o)),
+    FSpec('GroupL1Norm[weighted product]', ['pw_rn2_2_c', 'pr_rn2_rn2_w'], [{'p': 2}],
+          lambda sp, o: odl.solvers.GroupL1Norm(sp, o['p']),
+          lambda i, o: ref_group_l1(i, o['p']), dom=lambda i, o: _groupnonzero(o['p'])(i, o)),
+    FSpec('IndicatorGroupL1UnitBall[weighted product]', ['pw_rn2_2_c', 'pr_rn2_rn2_w'], [{'p': 2}],
+          lambda sp, o: odl.solvers.IndicatorGroupL1UnitBall(sp, float(o['p'])),
+          lambda i, o: ref_ind_group_ball(i, float(o['p'])), prox_tol=1e-6),
     FSpec('IndicatorGroupL1UnitBall', POW, [{'p': 2}, {'p': 'inf'}],
           lambda sp, o: odl.solvers.IndicatorGroupL1UnitBall(sp, float(o['p'])),
           lambda i, o: ref_ind_group_ball(i, float(o['p'])), prox_tol=1e-6),
@@ -418,7 +436,7 @@ SPECS = [
               sp, float(o['outer']), float(o['sv'])),
           lambda i, o: ref_ind_nuclear(i, float(o['outer']), float(o['sv'])),
           V=[-1.0, 0.0, 0.5, 2.0], prox_tol=1e-6),
-    FSpec('IndicatorSimplex', ['rn3', 'ud3', 'rn2'], [{'d': 1.0}, {'d': 2.0}],
+    FSpec('IndicatorSimplex', ['rn3', 'ud3', 'rn2', 'rn2x2'], [{'d': 1.0}, {'d': 2.0}],
           lambda sp, o: odl.solvers.IndicatorSimplex(sp, o['d']),
           lambda i, o: ref_simplex(i, o['d'])),
     FSpec('IndicatorSumConstraint', ['rn3', 'ud3', 'rn2'], [{'s': 1.0}, {'s': 2.0}],
@@ -462,9 +480,9 @@ def conj_ref(info, name, o):
         return ref_ind_ball(info, _q(o['p']))
     if name == 'IndicatorLpUnitBall':
         return ref_lpnorm(info, _q(o['p']))
-    if name == 'GroupL1Norm':
+    if name in ('GroupL1Norm', 'GroupL1Norm[weighted product]'):
         return ref_ind_group_ball(info, _q(o['p']))
-    if name == 'IndicatorGroupL1UnitBall':
+    if name in ('IndicatorGroupL1UnitBall', 'IndicatorGroupL1UnitBall[weighted product]'):
         return ref_group_l1(info, _q(o['p']))
     if name == 'ConstantFunctional':
         c = float(o['c'])
